@@ -95,6 +95,13 @@ FireAll(x, S, kind, d) ==
                       IF u.fam \in {"adv", "rawadv"} THEN [y EXCEPT !.w = Append(@, "UnsubscribeBluetoothLEAdvertisementsRequest")] ELSE y
                  ELSE x1
        IN FireAll(x2, S \ {u}, kind, d)
+\* Home-assistant state subscriptions: a one-shot request (m.f) goes to the subscriber's request handler if it
+\* gave one (family "hastate"), otherwise - like every other message - to its subscription handler ("hastate1")
+RECURSIVE FireHa(_, _, _)
+FireHa(x, S, m) ==
+  IF S = {} THEN x
+  ELSE LET u == CHOOSE v \in S : \A v2 \in S : v.id <= v2.id
+       IN FireHa([x EXCEPT !.cb = Append(@, <<u.id, IF m.f /\ u.fam = "hastate" THEN "hastate_once" ELSE "hastate", m.d, <<>> >>)], S \ {u}, m)
 Parts(x, u, key) == IF \E r \in x.img : r.sub = u.id /\ r.key = key
                     THEN (CHOOSE r \in x.img : r.sub = u.id /\ r.key = key).parts ELSE <<>>
 RECURSIVE Camera(_, _, _)
@@ -117,7 +124,7 @@ Dispatch(x, m) ==
     [] m.k = "cam" -> Camera(x1, SubsOf(x1, "states"), m)
     [] m.k = "log" -> FireAll(x1, SubsOf(x1, "logs"), "log", m.d)
     [] m.k = "hasvc" -> FireAll(x1, SubsOf(x1, "svc"), "hasvc", m.d)
-    [] m.k = "hastate" -> FireAll(x1, SubsOf(x1, "hastate"), IF m.f THEN "hastate_once" ELSE "hastate", m.d)
+    [] m.k = "hastate" -> FireHa(x1, SubsOf(x1, "hastate") \cup SubsOf(x1, "hastate1"), m)
     [] m.k = "adv" -> FireAll(x1, SubsOf(x1, "adv"), "adv", m.d)
     [] m.k = "rawadv" -> FireAll(x1, SubsOf(x1, "rawadv"), "rawadv", m.d)
     [] m.k = "free" -> FireAll(x1, SubsOf(x1, "free"), "free", m.d)
@@ -231,7 +238,7 @@ NotifyRemove(x0, i) == DropSub(Begin(x0), i, "ndata")
 NotifyStop(x0, i, a, h) == LET x == Begin(x0) IN IF x.up THEN Write(DropSub(x, i, "ndata"), "BluetoothGATTNotifyRequest") ELSE x
 
 SubRequest(fam) == CASE fam = "states" -> "SubscribeStatesRequest" [] fam = "logs" -> "SubscribeLogsRequest"
-                     [] fam = "svc" -> "SubscribeHomeassistantServicesRequest" [] fam = "hastate" -> "SubscribeHomeAssistantStatesRequest"
+                     [] fam = "svc" -> "SubscribeHomeassistantServicesRequest" [] fam \in {"hastate", "hastate1"} -> "SubscribeHomeAssistantStatesRequest"
                      [] fam \in {"adv", "rawadv"} -> "SubscribeBluetoothLEAdvertisementsRequest"
                      [] fam = "free" -> "SubscribeBluetoothConnectionsFreeRequest"
 UserSub(x0, id, fam, once) ==
